@@ -41,14 +41,17 @@ Keywords == {T.keywords[i] : i \in 1..Len(T.keywords)}    \* generator/golang/ty
 IdlName  == T.idlName    \* base name of the IDL file and ToCamel of it (reflection file-level names)
 IdlCamel == T.idlCamel
 Helper   == T.helper     \* raw name of the neutral helper definition
+\* which names of generated methods buildStructLike/buildService/buildFunction reserve, observed from the real code on a
+\* probe program (lib/c01_naming.py probe_reserved): [initDefault, countT, reflection, fieldMask, clientMethod, nilParam]
+Rsv      == T.reserved
 IdxSet(s) == {s[i] : i \in 1..Len(s)}
 
 CONSTANTS
   MaxProbe    \* bound on the rename loop of Add (ProbeBounded says it is never reached)
 
-VARIABLES ent, pc, draft, defs, at, globals, res, decl, panic
+VARIABLES ent, pc, draft, defs, at, globals, res, decl, panic, ren
 
-vars == <<ent, pc, draft, defs, at, globals, res, decl, panic>>
+vars == <<ent, pc, draft, defs, at, globals, res, decl, panic, ren>>
 
 P         == Plan[ent]
 S         == T.styles[P.style]
@@ -132,10 +135,13 @@ Flatten(ss, k) == IF k > Len(ss) THEN <<>> ELSE ss[k] \o Flatten(ss, k + 1)
 (* buildStructLike.  v = [raw (v.Name), nn (the name ids are made of), sn0 (identify(nn)),
    cat, synth, fields: Seq([n (Raw index), id (field id), isset (SupportIsSet)])] *)
 
-BuiltinFuncs(v) ==
+BuiltinFuncs(v, sn) ==
   <<"Read", "Write", "String">> \o
+  (IF Rsv.initDefault THEN <<"InitDefault">> ELSE <<>>) \o
   (IF v.synth THEN <<>> ELSE
-     (IF v.cat = "union" THEN <<"CountSetFields">> ELSE <<>>) \o
+     (IF v.cat = "union" THEN <<"CountSetFields">> \o (IF Rsv.countT THEN <<"CountSetFields" \o sn>> ELSE <<>>) ELSE <<>>) \o
+     (IF Rsv.reflection /\ Feat.reflection THEN <<"GetDescriptor", "GetTypeDescriptor">> ELSE <<>>) \o
+     (IF Rsv.fieldMask /\ Feat.fieldMask THEN <<"Get_FieldMask", "Set_FieldMask", "Pass_FieldMask">> ELSE <<>>) \o
      (IF v.cat = "exception" THEN <<"Error">> ELSE <<>>) \o
      (IF Feat.unknown THEN <<"CarryingUnknownFields">> ELSE <<>>) \o
      (IF Feat.deepEqual THEN <<"DeepEqual">> ELSE <<>>))
@@ -196,7 +202,7 @@ BuildStructLike(g, v) ==
       sn  == v.sn0 \o Us(cnt)
       st  == Apply([ns |-> Bind(g, sn, v.raw), ok |-> TRUE],
                    <<OpMust("New" \o sn, "$new:" \o v.nn), OpMust("fieldIDToName_" \o sn, "$ids:" \o v.nn)>>, 1)
-      bf  == BuiltinFuncs(v)
+      bf  == BuiltinFuncs(v, sn)
       s0  == Apply([ns |-> NS0, ok |-> TRUE], [i \in 1..Len(bf) |-> OpMust(bf[i], "$" \o bf[i])], 1)
       s1  == Apply(s0, Flatten([i \in 1..Len(v.fields) |-> MethodOps(v.fields[i])], 1), 1)
       fr  == FieldNames(s1.ns, v.fields, 1, <<>>)
@@ -210,7 +216,7 @@ UserStruct(d) == [raw |-> Raw[d.n], nn |-> Raw[d.n], sn0 |-> Identify(d.n), cat 
 -----------------------------------------------------------------------------
 (* buildFunction: the parameter namespace of one method *)
 
-ParamName(a) == LET n == LowerIdentify(a.n) IN IF n \in Keywords THEN "_" \o n ELSE n
+ParamName(a) == LET n == LowerIdentify(a.n) IN IF n \in Keywords \/ (Rsv.nilParam /\ n = "nil") THEN "_" \o n ELSE n
 
 BuildFunction(fn) ==
   LET s0 == Apply([ns |-> NS0, ok |-> TRUE],
@@ -271,7 +277,7 @@ BuildService(g, s) ==
       sn  == Identify(s.n) \o Us(cnt)
       lsn == LowerIdentify(s.n) \o Us(cnt)                \* Unexport(sn)
       g1  == Bind(g, sn, raw)
-      fnn == SvcFuncNames(NS0, s.fns, 1, <<>>)
+      fnn == SvcFuncNames(IF Rsv.clientMethod /\ ~Feat.noProcessor THEN Bind(NS0, "Client_", "$Client_") ELSE NS0, s.fns, 1, <<>>)
       st  == SvcFunctions([g |-> g1, ok |-> TRUE, decl |-> {}, outs |-> <<>>, probe |-> cnt], s, sn, fnn.names, 1)
       fin == IF st.ok THEN Apply([ns |-> st.g, ok |-> TRUE],
                                  <<OpMust(sn \o "Client", "$client:" \o raw), OpMust(sn \o "Processor", "$processor:" \o raw)>>, 1)
@@ -369,7 +375,7 @@ SvcDef(fsq) == [k |-> "service", n |-> HelperIdx, fs |-> <<>>,
                 fns |-> [i \in 1..Len(fsq) |-> [Fn0(fsq[i]) EXCEPT !.void = (i % 2 = 1)]], vals |-> <<>>]
 
 Init == /\ ent \in 1..Len(Plan)
-        /\ pc = "pick" /\ draft = <<>> /\ defs = <<>> /\ at = 1 /\ globals = NS0 /\ res = <<>> /\ decl = {} /\ panic = FALSE
+        /\ pc = "pick" /\ draft = <<>> /\ defs = <<>> /\ at = 1 /\ globals = NS0 /\ res = <<>> /\ decl = {} /\ panic = FALSE /\ ren = 0
 
 \* the drafted names: (kind, name) pairs in installNames order for the package family, names otherwise; all distinct
 Items == IF Family = "package" THEN {[k |-> k, n |-> n] : k \in Kinds, n \in PkgNames}
@@ -380,7 +386,7 @@ PickName == /\ pc = "pick" /\ Len(draft) < K
                  /\ \A i \in 1..Len(draft) : draft[i].n # it.n
                  /\ (Family = "package" /\ Len(draft) > 0) => Rank(draft[Len(draft)].k) <= Rank(it.k)
                  /\ draft' = Append(draft, it)
-            /\ UNCHANGED <<ent, pc, defs, at, globals, res, decl, panic>>
+            /\ UNCHANGED <<ent, pc, defs, at, globals, res, decl, panic, ren>>
 
 Names(d) == [i \in 1..Len(d) |-> d[i].n]
 Programs(d) ==
@@ -394,13 +400,14 @@ Start == /\ pc = "pick" /\ Len(draft) > 0
          /\ pc' = "build"
          /\ decl' = FileDecls
          /\ draft' = <<>>
-         /\ UNCHANGED <<ent, at, globals, res, panic>>
+         /\ UNCHANGED <<ent, at, globals, res, panic, ren>>
 
 Step(b) == /\ globals' = b.g
            /\ panic' = ~b.ok
            /\ res' = Append(res, b.out)
            /\ decl' = decl \cup b.decl
            /\ at' = at + 1
+           /\ ren' = ren + b.probe          \* b.probe: the largest number of renames one Add needed in this step
            /\ Assert(b.probe < MaxProbe, "ProbeBounded")
            /\ UNCHANGED <<ent, pc, draft, defs>>
 
@@ -415,7 +422,7 @@ DoConstant   == Building /\ defs[at].k = "const" /\ \E b \in {BuildConstant(glob
 
 Finish == /\ pc = "build" /\ (panic \/ at > Len(defs))
           /\ pc' = "done"
-          /\ UNCHANGED <<ent, draft, defs, at, globals, res, decl, panic>>
+          /\ UNCHANGED <<ent, draft, defs, at, globals, res, decl, panic, ren>>
 
 Next == PickName \/ Start
         \/ DoService \/ DoStructLike \/ DoEnum \/ DoTypedef \/ DoConstant \/ Finish
@@ -439,7 +446,16 @@ RefIntegrity == (pc = "done" /\ ~panic) =>
 \* names given by one namespace to the definitions themselves never coincide (what Add guarantees)
 DirectNamesDistinct == \A i, j \in 1..Len(res) : i # j => res[i].name # res[j].name
 
+\* Export: every completed behaviour with a clash, a panic or a rename, and a 1-in-P.sample selection of the others
+\* (a fixed arithmetic selection over the drafted names); the rest is only counted ("N <entry>").
+FnIdxs(f) == <<f.n>> \o [j \in 1..Len(f.args) |-> f.args[j].n] \o [j \in 1..Len(f.throws) |-> f.throws[j].n + 1]
+DefIdxs(d) == <<d.n + Rank(d.k)>> \o [j \in 1..Len(d.fs) |-> d.fs[j].n] \o Flatten([j \in 1..Len(d.fns) |-> FnIdxs(d.fns[j])], 1)
+RECURSIVE Mix(_, _)
+Mix(sq, k) == IF k > Len(sq) THEN 0 ELSE (sq[k] * (31 + 6 * k) + Mix(sq, k + 1)) % 9973
+Selected == P.sample = 1 \/ Mix(Flatten([i \in 1..Len(defs) |-> DefIdxs(defs[i])], 1), 1) % P.sample = 0
 Emit == pc = "done" =>
-          PrintT("CASE " \o ToJson([e |-> ent, defs |-> defs, res |-> res, panic |-> panic, clash |-> ~NoClash /\ ~panic,
-                                    clashes |-> IF NoClash \/ panic THEN {} ELSE Clashes]))
+          IF panic \/ ~NoClash \/ ren > 0 \/ Selected
+          THEN PrintT("CASE " \o ToJson([e |-> ent, defs |-> defs, res |-> res, panic |-> panic, clash |-> ~NoClash /\ ~panic,
+                                         ren |-> ren, clashes |-> IF NoClash \/ panic THEN {} ELSE Clashes]))
+          ELSE PrintT("N " \o ToString(ent))
 =============================================================================
